@@ -35,7 +35,8 @@ RULE = ("(fft size in {2,4,6,7,8,12,16,32,64,128,256,1024,2048} incl. odd "
         "SuMimoChannel, SuChannel with a path loss of 0..60 dB) in either link "
         "direction. "
         "The channel-1x1 generator also covers one-transmit / N-receive channels (1xN in the reverse direction, Nx1 forward) fed with the 1-D signal, one receive antenna equalised with its own taps; in 30 % of the channel cases the equalizer is created before the modem is re-configured with set_parameters. "
-        "One channel case in 80 is a 1024/2048-point frame of 4-7 symbols. ")
+        "One channel case in 80 is a 1024/2048-point frame of 4-7 symbols. "
+        "A quarter of the re-configured modems get their three public attributes written directly; 6 % of the inputs are signals of magnitude 1e-17..1e-12. ")
 ASSUMPTIONS = ["a time-invariant channel is a Jakes generator with zero Doppler",
                "cases with min|H| < 1e-6 max|H| over the used subcarriers are "
                "tallied as ill-conditioned (the equaliser divides by H)",
@@ -97,7 +98,13 @@ def case_roundtrip(ctx, rng, idx):
             o = OF.OFDM(fft0, cp0, used0)
             o.demodulate(np.asarray(o.modulate(rand_c(rng, used0 + 1))).copy())
             o.get_used_subcarrier_indexes()
-            o.set_parameters(fft, cp, used)
+            if rng.random() < 0.25:
+                # the three public attributes written one by one (as the repository's
+                # own tests do) instead of through set_parameters
+                o.fft_size, o.cp_size, o.num_used_subcarriers = fft, cp, used
+                tag["reconfigured"] = "attributes-written-directly"
+            else:
+                o.set_parameters(fft, cp, used)
             return o
         tag["before"] = [fft0, cp0, used0]
         okc, o = ctx.call("round-trip", build, cls="reconfigure", detail=tag)
@@ -128,6 +135,8 @@ def case_roundtrip(ctx, rng, idx):
     if fft >= 1024:
         n = min(n, 2 * used)
     x = rand_c(rng, n) * 10.0 ** rng.uniform(-2, 2)
+    if rng.random() < 0.06:
+        x = x * 10.0 ** rng.uniform(-17, -12)       # very weak signals are signals too
     if rng.random() < 0.1:
         x = x.real.copy()
     tag["n"] = n
